@@ -2,6 +2,7 @@ import OH.Proofs.EvalSpecDatedYear
 import OH.Proofs.EvalSpecDatedWide
 import OH.Proofs.DatedFar
 import OH.Proofs.EvalSpecDatedAll
+import OH.Proofs.EvalSpecDatedYearAll
 /-
 C01 refinement, dated ranges: the decidable class under which the model's filter is the specification's
 `datedOk` on every day of 1899-12-31 … 9999-12-31.
@@ -17,11 +18,13 @@ or on the size of the shift relative to a year.  A defined meaning, and (`datedP
    keeps one of each, and a window that starts at the first / ends at the last year of the calendar is adequate;
    (`offsWideD`, ±92 000 000 days, is the part of this class the HINT theorems cover);
  * a yearless start moved by +99 500 000 days or more: nothing ever starts (OH/Proofs/DatedFar.lean; any dates);
- * a start with a year before a yearless end, and Easter (`offsSmallD`, OH/Proofs/EvalSpecDated.lean,
-   EvalSpecDatedYear.lean): both day offsets within ±30 000 000 days (every year looked at lies in
-   -165 000 … 175 000, where no shifted instance saturates), within ±300 000 days when a bound is Easter (every
-   year looked at is then a year ≥ 0, where `easter()` is the Gregorian computus: on a negative year it is not a
-   date between March 22nd and April 25th — it can be `Feb 30`: no occurrence).
+ * a start with a year before a fixed yearless end (`startYearD`, OH/Proofs/EvalSpecDatedYearAll.lean): start
+   offset within ±92 000 000 days (the shifted start is not pinned), ANY end offset;
+ * Easter without a year (`offsSmallD`, OH/Proofs/EvalSpecDated.lean, EvalSpecDatedYear.lean): both day offsets
+   within ±300 000 days (every year looked at is then a year ≥ 0, where `easter()` is the Gregorian computus: on a
+   negative year it is not a date between March 22nd and April 25th — it can be `Feb 30`: no occurrence); the same
+   files prove ±30 000 000 days for fixed dates (every year looked at lies in -165 000 … 175 000, where no shifted
+   instance saturates) — subsumed by the cases above.
 What remains outside and why: notes/DATED-BOUND.md.
 -/
 namespace OH.Proofs.EvalSpec
@@ -73,20 +76,27 @@ def offsWideD (s : DateSpec) (so : DateOffset) (e : DateSpec) (eo : DateOffset) 
 within and beyond representability -/
 def rangeAllD (s e : DateSpec) : Bool := fixedYearless s && fixedYearless e
 
+/-- a start with a year (fixed or Easter) before a fixed yearless end (OH/Proofs/EvalSpecDatedYearAll.lean): start
+offset within ±92 000 000 days (the shifted start is not pinned), EVERY end offset -/
+def startYearD (s : DateSpec) (so : DateOffset) (e : DateSpec) : Bool :=
+  (specYear s).isSome && fixedYearless e && offWideD so
+
 /-- Rule-level class (no reference to the day): the range has a defined meaning (`datedDefined`: not
 "no year … year") and
  * both bounds carry a year: any offsets;
  * two fixed dates without a year (`Jan 01 …-Dec 31 …`, `Feb 29 -N days-Feb 29 +M days`): ANY offsets
    (`rangeAllD`; `offsWideD`, ±92 000 000 days, is the part of it the hint theorems cover);
- * otherwise (a start with a year and a yearless end; Easter): both day offsets within ±30 000 000 days, ±300 000
-   days when a bound is Easter (`offsSmallD`).
+ * a start with a year before a fixed yearless end: start offset within ±92 000 000 days, any end offset
+   (`startYearD`);
+ * otherwise (a yearless Easter): both day offsets within ±300 000 days (`offsSmallD`; ±30 000 000 days when both
+   dates are fixed — subsumed by the cases above).
  * or: a yearless start moved by +99 500 000 days or more (`offFarStartD`, OH/Proofs/DatedFar.lean: beyond
    representability — nothing ever starts before 10000-01-01), any dates, any end offset.
 Nothing else: any weekday shift, single days, ranges longer than a year, offsets that differ by thousands of
 years. -/
 def datedPlain (s : DateSpec) (so : DateOffset) (e : DateSpec) (eo : DateOffset) : Bool :=
   (((specYear s).isSome && (specYear e).isSome) || offsSmallD s so e eo || offsWideD s so e eo
-    || ((specYear s).isNone && offFarStartD so) || rangeAllD s e) && datedDefined s e
+    || ((specYear s).isNone && offFarStartD so) || rangeAllD s e || startYearD s so e) && datedDefined s e
 
 /-- The class of (dated range, day) pairs the refinement covers: it no longer depends on the day (the
 parameter is kept for the statements that quantify over days). -/
@@ -141,18 +151,27 @@ theorem dated_eq_of_plain (s : DateSpec) (so : DateOffset) (e : DateSpec) (eo : 
         | some n => simp [specYear] at ys
         | none => exact dated_single_eqA m dd so eo d wso weo h1 h2
     · exact dated_yearless_eqA s so e eo d ⟨ws, wso, fs, ys⟩ ⟨we, weo, fe, ye⟩ (fun h => hse h.1) h1 h2
+  by_cases hsyd : startYearD s so e = true
+  · simp only [MonthdayRange.wf, Bool.and_eq_true] at hwf
+    obtain ⟨⟨⟨ws, wso⟩, we⟩, weo⟩ := hwf
+    simp only [startYearD, fixedYearless, offWideD, Bool.and_eq_true, Option.isNone_iff_eq_none,
+      decide_eq_true_eq] at hsyd
+    obtain ⟨⟨hsome, ⟨fe, ye⟩⟩, hss⟩ := hsyd
+    obtain ⟨sy, hsy⟩ := Option.isSome_iff_exists.1 hsome
+    exact dated_year_yearless_eqA s so e eo d ws wso hss ⟨we, weo, fe, ye⟩ sy hsy h2
   simp only [MonthdayRange.wf, DateOffset.wf, Bool.and_eq_true] at hwf
   obtain ⟨⟨⟨ws, ⟨wso, _⟩⟩, we⟩, ⟨weo, _⟩⟩ := hwf
   unfold datedPlain at hsafe
-  rw [Bool.not_eq_true] at hfar hall
-  simp only [Bool.and_eq_true, Bool.or_eq_true, hwide, hfar, hall] at hsafe
+  rw [Bool.not_eq_true] at hfar hall hsyd
+  simp only [Bool.and_eq_true, Bool.or_eq_true, hwide, hfar, hall, hsyd] at hsafe
   obtain ⟨hoff, hdef⟩ := hsafe
   cases hsy : specYear s with
   | none =>
     have hoff : offsSmallD s so e eo = true := by
-      rcases hoff with (((h | h) | h) | h) | h
+      rcases hoff with ((((h | h) | h) | h) | h) | h
       · simp [hsy] at h
       · exact h
+      · exact absurd h (by simp)
       · exact absurd h (by simp)
       · exact absurd h (by simp)
       · exact absurd h (by simp)
@@ -176,9 +195,10 @@ theorem dated_eq_of_plain (s : DateSpec) (so : DateOffset) (e : DateSpec) (eo : 
     cases hey : specYear e with
     | none =>
       have hoff : offsSmallD s so e eo = true := by
-        rcases hoff with (((h | h) | h) | h) | h
+        rcases hoff with ((((h | h) | h) | h) | h) | h
         · simp [hey] at h
         · exact h
+        · exact absurd h (by simp)
         · exact absurd h (by simp)
         · exact absurd h (by simp)
         · exact absurd h (by simp)
